@@ -1,7 +1,7 @@
 #!/bin/bash
 # run_all.sh <tier> [seed]  — run every claimed check, print one summary line each
 tier=${1:-quick}; seed=${2:-1}
-cd /verif
+cd "$(dirname "$0")/.."
 for id in $(python3 -c "import json;print(' '.join(c['property_id'] for c in json.load(open('MANIFEST.json'))['checks']))"); do
   t0=$(date +%s)
   VERIF_SEED=$seed ./check $id $tier > /tmp/runall-$id-$tier-$seed.log 2>&1; rc=$?
